@@ -54,19 +54,22 @@ def real_server(kind, context, framer, ignore_missing, broadcast, loop=None):
     loopback port, never served): the handlers below take their settings and the context from it exactly as in
     production.  Returns (server, closer) or (None, reason)."""
     fr = framelib.FRAMERS[framer]
+    # None = the keyword is left out: the constructor takes the library-wide default (constants.Defaults) as it stands NOW
+    opts = {}
+    if ignore_missing is not None:
+        opts['ignore_missing_slaves'] = ignore_missing
+    if broadcast is not None:
+        opts['broadcast_enable'] = broadcast
     try:
         if kind == 'syncTcp':
-            srv = ssync.ModbusTcpServer(context, framer=fr, address=('127.0.0.1', 0), ignore_missing_slaves=ignore_missing,
-                                        broadcast_enable=broadcast)
+            srv = ssync.ModbusTcpServer(context, framer=fr, address=('127.0.0.1', 0), **opts)
             return srv, srv.server_close
         if kind == 'syncUdp':
-            srv = ssync.ModbusUdpServer(context, framer=fr, address=('127.0.0.1', 0), ignore_missing_slaves=ignore_missing,
-                                        broadcast_enable=broadcast)
+            srv = ssync.ModbusUdpServer(context, framer=fr, address=('127.0.0.1', 0), **opts)
             return srv, srv.server_close
         if kind in ('aioTcp', 'aioUdp'):
             cls = saio.ModbusTcpServer if kind == 'aioTcp' else saio.ModbusUdpServer
-            srv = cls(context, framer=fr, address=('127.0.0.1', 0), ignore_missing_slaves=ignore_missing,
-                      broadcast_enable=broadcast, loop=loop)
+            srv = cls(context, framer=fr, address=('127.0.0.1', 0), loop=loop, **opts)
 
             def closer():
                 f = getattr(srv, 'server_factory', None)
@@ -197,6 +200,52 @@ class _SyncStreamConn:
             pass
 
 
+class _ParkingDecoder:
+    """the server's shared decoder, with one scheduling point: a handler thread that has been told to `park` stops right where
+    the framer hands it a complete, checked frame to decode (between checkFrame and populateResult) until it is released.  This
+    is the pre-emption a threaded server can suffer at that point; nothing else about the decoder is changed."""
+
+    def __init__(self, real):
+        import threading
+        self.real = real
+        self.park_thread = None
+        self.parked = threading.Event()
+        self.go = threading.Event()
+
+    def decode(self, data):
+        import threading
+        if self.park_thread is threading.current_thread() and not self.parked.is_set():
+            self.parked.set()
+            self.go.wait(5)
+        return self.real.decode(data)
+
+    def __getattr__(self, name):
+        return getattr(self.real, name)
+
+
+def preempted_pair(framer, units, ignore_missing, chunk_a, chunk_b):
+    """sync threaded TCP server, two connections: A receives chunk_a and is pre-empted when its framer has a checked frame in
+    hand; meanwhile B receives chunk_b and is served completely; then A goes on.  Returns (frames written to A, frames written
+    to B, dumps per unit, whether A really was parked)."""
+    s = Session('syncTcp', framer, False, units, ignore_missing, False)
+    try:
+        dec = _ParkingDecoder(s.srv.decoder)
+        s.srv.decoder = dec
+        a, b = s.open(), s.open()
+        ca, cb = s.conns[a], s.conns[b]
+        dec.park_thread = ca.thread
+        ca.sock.out = []
+        ca.sock.idle.clear()
+        ca.sock.q.put(bytes(chunk_a))
+        was_parked = dec.parked.wait(3)
+        out_b, _ = s.feed(b, chunk_b)
+        dec.go.set()
+        ca._wait()
+        return [list(f) for f in ca.sock.out], out_b, s.dumps(), was_parked
+    finally:
+        s.close()
+
+
 class _SyncUdpConn:
     """socketserver builds a new ModbusDisconnectedRequestHandler for every datagram"""
 
@@ -310,7 +359,8 @@ class _TwistedTcpConn:
                 self.writes.append(list(data))
                 StringTransport.write(self, data)
 
-        fac = stw.ModbusServerFactory(store, framer=framelib.FRAMERS[framer], ignore_missing_slaves=ignore_missing)
+        opts = {} if ignore_missing is None else {'ignore_missing_slaves': ignore_missing}
+        fac = stw.ModbusServerFactory(store, framer=framelib.FRAMERS[framer], **opts)
         self.p = stw.ModbusTcpProtocol()
         self.p.factory = fac
         self.tr = Rec()
@@ -344,7 +394,8 @@ class _DgramTransport:
 
 class _TwistedUdpConn:
     def __init__(self, store, framer, ignore_missing):
-        self.p = stw.ModbusUdpProtocol(store, framer=framelib.FRAMERS[framer], ignore_missing_slaves=ignore_missing)
+        opts = {} if ignore_missing is None else {'ignore_missing_slaves': ignore_missing}
+        self.p = stw.ModbusUdpProtocol(store, framer=framelib.FRAMERS[framer], **opts)
         self.p.transport = _DgramTransport()
 
     def feed(self, chunk):
@@ -409,13 +460,22 @@ def initial_control(identity=None):
 
 
 class Session:
-    def __init__(self, kind, framer, single, units, ignore_missing, broadcast, identity=None, late=False):
-        """late=True: the server object is built by the front-end's REAL constructor around a context that hosts NO unit yet
+    def __init__(self, kind, framer, single, units, ignore_missing, broadcast, identity=None, late=False, via_defaults=False):
+        """via_defaults=True: the application configures the server through the library-wide defaults (constants.Defaults set at
+        run time, after the modules were imported) and passes NO option to the constructors; the front-ends that can be built
+        without a port are built by their REAL constructors.  What is served must be what the explicit options give.
+        late=True: the server object is built by the front-end's REAL constructor around a context that hosts NO unit yet
         (multi-unit contexts), and the units are attached afterwards with `context[u] = ...` — a gateway that learns its
         units at run time.  What is served afterwards must be what a server built around the full context serves."""
         initial_control(identity)
         self.kind, self.framer, self.units = kind, framer, units
         self.ignore_missing = ignore_missing
+        self.saved_defaults = None
+        if via_defaults:
+            from pymodbus.constants import Defaults
+            self.saved_defaults = (Defaults.IgnoreMissingSlaves, Defaults.broadcast_enable)
+            Defaults.IgnoreMissingSlaves, Defaults.broadcast_enable = bool(ignore_missing), bool(broadcast)
+            self.ignore_missing = None          # (the Twisted constructors get no option either)
         self.conns = []
         self.loop = None
         self.closer = None
@@ -429,8 +489,9 @@ class Session:
         else:
             self.store = full
         self.srv = None
-        if late and kind in ('syncTcp', 'syncUdp', 'aioTcp', 'aioUdp'):
-            self.srv, self.closer = real_server(kind, self.store, framer, ignore_missing, broadcast, self.loop)
+        if (late or via_defaults) and kind in ('syncTcp', 'syncUdp', 'aioTcp', 'aioUdp'):
+            self.srv, self.closer = real_server(kind, self.store, framer, None if via_defaults else ignore_missing,
+                                                None if via_defaults else broadcast, self.loop)
             if self.srv is None:
                 self.late_note, self.closer = self.closer, None
         if self.srv is None:
@@ -438,7 +499,7 @@ class Session:
         self.late_store = self.store
         if late and kind in ('twistedTcp', 'twistedUdp'):
             # the Twisted factory / protocol take the store in their constructors: build them now, attach later
-            self.pre = (_TwistedTcpConn if kind == 'twistedTcp' else _TwistedUdpConn)(self.store, framer, ignore_missing)
+            self.pre = (_TwistedTcpConn if kind == 'twistedTcp' else _TwistedUdpConn)(self.store, framer, self.ignore_missing)
         else:
             self.pre = None
         if late and not single:
@@ -463,6 +524,17 @@ class Session:
         return len(self.conns) - 1
 
     def feed(self, conn, chunk):
+        if isinstance(chunk, dict) and 'add' in chunk:
+            # the application registers (or replaces) a unit at run time: `context[u] = slave`
+            try:
+                ctx, bl = mk_slave(chunk['layout'])
+                self.store[chunk['add']] = ctx
+                self.blocks[chunk['add']] = bl
+                if all(x[0] != chunk['add'] for x in self.units):
+                    self.units = list(self.units) + [[chunk['add'], chunk['layout']]]
+                return [], None
+            except Exception as e:  # noqa
+                return [], errkind(e)
         if isinstance(chunk, dict):
             # the application removes a unit from the server context at run time: `del context[u]`
             try:
@@ -509,13 +581,17 @@ class Session:
         if self.loop is not None:
             asyncio.set_event_loop(None)
             self.loop.close()
+        if self.saved_defaults is not None:
+            from pymodbus.constants import Defaults
+            Defaults.IgnoreMissingSlaves, Defaults.broadcast_enable = self.saved_defaults
+            self.saved_defaults = None
 
 
-def run_schedule(kind, framer, single, units, ignore_missing, broadcast, nconns, schedule, identity=None, late=False):
+def run_schedule(kind, framer, single, units, ignore_missing, broadcast, nconns, schedule, identity=None, late=False, via_defaults=False):
     """several connections sharing one datastore; schedule = list of (connection index, chunk).
     Returns (per-step written frames, per-step escaped exception kind, final dumps per unit, per-step "the connection is
     still served afterwards")"""
-    s = Session(kind, framer, single, units, ignore_missing, broadcast, identity, late=late)
+    s = Session(kind, framer, single, units, ignore_missing, broadcast, identity, late=late, via_defaults=via_defaults)
     try:
         ids = [s.open() for _ in range(nconns)]
         outs, escs, alive = [], [], []
@@ -529,6 +605,6 @@ def run_schedule(kind, framer, single, units, ignore_missing, broadcast, nconns,
         s.close()
 
 
-def run_frontend(kind, framer, single, units, ignore_missing, broadcast, chunks, identity=None):
+def run_frontend(kind, framer, single, units, ignore_missing, broadcast, chunks, identity=None, via_defaults=False):
     """one connection receiving `chunks`"""
-    return run_schedule(kind, framer, single, units, ignore_missing, broadcast, 1, [(0, c) for c in chunks], identity)
+    return run_schedule(kind, framer, single, units, ignore_missing, broadcast, 1, [(0, c) for c in chunks], identity, via_defaults=via_defaults)
